@@ -301,3 +301,67 @@ def run(P, rep, tier):
         if f.ret == 'void' and f.params and any('Bitstrm' in pt for pn, pt in f.params) and f.name.startswith(('read_', 'parse_')):
             nv += 1
     rep.note('%d void syntax-element readers taking a Bitstrm cannot report an error (informational)' % nv)
+
+    # ---------------- REINIT: a new sequence header that changes the geometry must re-arm the memory initialisation
+    # (mem_init_done = 0), otherwise the next frame is decoded into buffers sized for the previous sequence.  The re-arm is
+    # control-dependent on comparisons of the geometry members; each comparison must really compare "before" with "after":
+    # one operand is a value loaded before the header is parsed, or the two operands are members of two different objects of
+    # which neither has been copied into the other yet.  (Comparing a value with its own copy is always false.)
+    from engine.reach import reaching
+    dmo = P.fn('decode_multiple_obu')
+    GEO = ('SeqHeader.sb_size', 'SeqHeader.max_frame_width', 'SeqHeader.max_frame_height')
+    rearm = [ev for ev in dmo.events(('st',)) if ev['e'][0] == 'a' and last_field(strip(ev['e'][2])) == 'EbDecHandle.mem_init_done' and is_lit(ev['e'][3], 0)]
+    parse = [ev for ev, n in dmo.calls('read_sequence_header_obu')]
+    if not parse:
+        raise AnalysisBroken('decode_multiple_obu no longer calls read_sequence_header_obu')
+    if not rearm:
+        rep.ob('C10.REINIT', 'decode_multiple_obu/re-arm-present', False, dmo.loc(parse[0]),
+               'no store mem_init_done = 0 after a sequence header: a geometry change is decoded into the old buffers')
+    for rv in rearm:
+        conds = [c for k, c, l in dmo.ctl_chain(rv) if c is not None and not isinstance(c[0], list) and k == 'if']
+        cmps = [y for c in conds for y in subexprs(strip(c)) if y[0] == 'b' and y[1] in ('!=', '==') and
+                (fields_in(y) & set(GEO) or any(x[0] == 'v' for x in (strip(y[2]), strip(y[3]))))]
+        seenf = set()
+        for y in cmps:
+            l, r = strip(y[2]), strip(y[3])
+            fl = (fields_in(y) & set(GEO))
+            if not fl:
+                continue
+            F = sorted(fl)[0]
+            seenf.add(F)
+            ok, why = False, ''
+            loc_side = l if l[0] == 'v' else (r if r[0] == 'v' else None)
+            if loc_side is not None:
+                defs = reaching(dmo).at(rv, loc_side[1])
+                good = [d for d in defs if isinstance(d, dict) and d.get('e') is not None and F in fields_in(d['e'] if d['k'] == 'decl' else d['e'][3]) and
+                        all(dmo.ev_dominates(d, p) for p in parse)]
+                ok = bool(defs) and len(good) == len(defs)
+                why = ('%s holds the value loaded before the header is parsed' % loc_side[1]) if ok else \
+                      ('%s is not (only) a copy of %s taken before the header is parsed' % (loc_side[1], F))
+            elif l[0] == 'm' and r[0] == 'm':
+                A, B = pstr(strip(l[3])), pstr(strip(r[3]))
+                if A == B:
+                    ok, why = False, 'both operands read the same object'
+                else:
+                    def names(s):
+                        return {s, s.lstrip('*&'), '*' + s.lstrip('*&'), '&' + s.lstrip('*&')}
+                    copied = None
+                    for sv in dmo.events(('st', 'decl')):
+                        e = sv.get('e')
+                        if e is None or not any(dmo.ev_dominates(p, sv) for p in parse):
+                            continue
+                        if sv['k'] == 'st' and e[0] == 'a' and e[1] == '=':
+                            tp, rp = pstr(strip(e[2])), pstr(strip(e[3]))
+                            if (tp in names(A) and rp in names(B)) or (tp in names(B) and rp in names(A)):
+                                if dmo.ev_dominates(sv, rv):
+                                    copied = sv
+                    ok = copied is None
+                    why = 'two different objects, compared before either is copied into the other' if ok else \
+                          ('%s and %s are compared after one was copied into the other (line %d): the test is always false and mem_init_done is never reset' % (A, B, copied['l']))
+            else:
+                why = 'unrecognised comparison shape %s' % pstr(y)[:60]
+            rep.ob('C10.REINIT', 'decode_multiple_obu/re-arm:%s' % F.split('.')[1], ok, dmo.loc(rv), why)
+        for F in GEO:
+            if F not in seenf:
+                rep.ob('C10.REINIT', 'decode_multiple_obu/re-arm:%s' % F.split('.')[1], False, dmo.loc(rv), 'the re-arm condition does not look at %s' % F)
+    rep.floor('C10.REINIT', 1)
